@@ -32,7 +32,9 @@ Definition must_ignore (expected : blockhash) (outstanding : list rreq) (p : rre
        | PLast _ _ _ ok, RLast _ => negb ok
        | PRoot _ _ ok, RRoot _ _ => negb ok
        | PShred _ slot_ok s sig_ok, RShred _ slice index =>
+         (* a type (data / coding) contradicting the shred index is not the leader's shred: ignored *)
          negb (slot_ok && (b_slice s =? slice) && (b_index s =? index) && sig_ok
+               && Bool.eqb (b_index s <? DATA_SHREDS) (b_is_data s)
                && Bool.eqb (b_last s) (slice + 1 =? N.of_nat (length expected))
                && match nthN expected slice with Some root => b_root s =? root | None => false end)
        | _, _ => true
